@@ -14,13 +14,20 @@ package mempool
 // bounds of the pool (C23): never more than maxSize items, never more than maxSponsorSize per sponsor
 //@ spec func RI(m *Mempool) bool = gint("len", m.queue) >= 0 && gint("len", m.queue) <= m.maxSize && !isnil(m.owned) && (forall s codec.Address :: has(m.owned, s) ==> 1 <= m.owned[s] && m.owned[s] <= m.maxSponsorSize)
 
+// the expiry heap and the queue hold the same ids
+//@ spec func SAME(m *Mempool) bool = gint("n", m.eh) == gint("len", m.queue) && (forall q string :: has(gmap("items", m.eh), q) == has(gmap("q", m.queue), q))
+
 //@ func (*Mempool).add props C23
 //@   noframe
 //@   reveal RI
-//@   requires RI(m) && m.maxSize >= 0 && m.maxSponsorSize >= 1
-//@   modifies gint("len", m.queue), gmap("items", m.eh)[], m.owned[], m.pendingSize
-//@   loop 1 invariant RI(m) && 0 <= idx1 && idx1 <= len(items)
-//@   ensures RI(m)
+//@   reveal SAME
+//@   requires RI(m) && m.maxSize >= 0 && m.maxSponsorSize >= 1 && SAME(m)
+//@   modifies gint("len", m.queue), gmap("items", m.eh)[], gint("n", m.eh), gmap("q", m.queue)[], m.owned[], m.pendingSize
+//@   loop 1 invariant RI(m) && 0 <= idx1 && idx1 <= len(items) && SAME(m)
+//@   loop 1 invariant forall j int :: 0 <= j && j < len(items) && !isnil(m.streamedItems) && has(m.streamedItems, Item.GetID(items[j])) ==> has(gmap("items", m.eh), str(Item.GetID(items[j]))) == old(has(gmap("items", m.eh), str(Item.GetID(items[j]))))
+//@   ensures RI(m) && SAME(m)
+// an item handed out during the current stream is not taken back before the stream finishes
+//@   ensures forall j int :: 0 <= j && j < len(items) && !isnil(m.streamedItems) && has(m.streamedItems, Item.GetID(items[j])) ==> has(gmap("items", m.eh), str(Item.GetID(items[j]))) == old(has(gmap("items", m.eh), str(Item.GetID(items[j]))))
 
 // a sponsor's counter goes down by one, the entry disappears at zero; nothing else moves
 //@ func (*Mempool).removeFromOwned props C23
@@ -34,10 +41,10 @@ package mempool
 // popNext takes the head of the queue (nothing when it is empty) and keeps the bounds
 //@ func (*Mempool).popNext props C23
 //@   noframe
-//@   reveal RI
-//@   requires RI(m)
-//@   modifies gint("len", m.queue), gmap("items", m.eh)[], m.owned[], m.pendingSize
-//@   ensures RI(m)
+//@   reveal RI SAME
+//@   requires RI(m) && SAME(m)
+//@   modifies gint("len", m.queue), gmap("items", m.eh)[], gint("n", m.eh), gmap("q", m.queue)[], m.owned[], m.pendingSize
+//@   ensures RI(m) && SAME(m)
 //@   ensures result1 == (old(gint("len", m.queue)) > 0)
 //@   ensures result1 ==> gint("len", m.queue) == old(gint("len", m.queue)) - 1
 //@   ensures !result1 ==> gint("len", m.queue) == old(gint("len", m.queue))
@@ -47,13 +54,86 @@ package mempool
 //@   noframe
 //@   opt monitor m.mu
 //@   reveal RI
-//@   requires RI(m) && m.maxSize >= 0 && m.maxSponsorSize >= 1
-//@   modifies gint("len", m.queue), gmap("items", m.eh)[], m.owned[], m.pendingSize
-//@   ensures RI(m)
+//@   requires RI(m) && m.maxSize >= 0 && m.maxSponsorSize >= 1 && SAME(m)
+//@   modifies gint("len", m.queue), gmap("items", m.eh)[], gint("n", m.eh), gmap("q", m.queue)[], m.owned[], m.pendingSize
+//@   ensures RI(m) && SAME(m)
 //@ func (*Mempool).PopNext props C23
 //@   noframe
 //@   opt monitor m.mu
-//@   reveal RI
-//@   requires RI(m)
-//@   modifies gint("len", m.queue), gmap("items", m.eh)[], m.owned[], m.pendingSize
-//@   ensures RI(m)
+//@   reveal RI SAME
+//@   requires RI(m) && SAME(m)
+//@   modifies gint("len", m.queue), gmap("items", m.eh)[], gint("n", m.eh), gmap("q", m.queue)[], m.owned[], m.pendingSize
+//@   ensures RI(m) && SAME(m)
+
+// Remove takes out exactly the listed ids that are present; bounds and heap/queue agreement are kept
+//@ func (*Mempool).Remove props C23
+//@   noframe
+//@   opt monitor m.mu
+//@   reveal RI SAME
+//@   requires RI(m) && SAME(m)
+//@   modifies gint("len", m.queue), gmap("items", m.eh)[], gint("n", m.eh), gmap("q", m.queue)[], m.owned[], m.pendingSize
+//@   loop 1 invariant RI(m) && SAME(m) && 0 <= idx1 && idx1 <= len(items)
+//@   at call GetID snapshot beforeRemove
+//@   at call removeFromOwned assert at(beforeRemove, has(gmap("items", m.eh), str(Item.GetID(item))))
+//@   ensures RI(m) && SAME(m)
+
+// SetMinTimestamp hands the cut-off to the expiry heap on every path (which items are below it is the
+// heap's ASSUMED contract) and takes every item the heap dropped out of the queue as well
+//@ func (*Mempool).SetMinTimestamp props C23
+//@   noframe
+//@   opt monitor m.mu
+//@   reveal RI SAME
+//@   requires RI(m) && SAME(m)
+//@   modifies gint("len", m.queue), gmap("items", m.eh)[], gint("n", m.eh), gint("min", m.eh), gmap("q", m.queue)[], m.owned[], m.pendingSize
+//@   loop 1 invariant 0 <= idx1 && idx1 <= len(removedElems) && len(removed) == len(removedElems) && gint("min", m.eh) == t
+//@   loop 1 invariant gint("len", m.queue) == gint("n", m.eh) + len(removedElems) - idx1 && gint("n", m.eh) >= 0 && gint("len", m.queue) <= m.maxSize
+//@   loop 1 invariant !isnil(m.owned) && (forall s codec.Address :: has(m.owned, s) ==> 1 <= m.owned[s] && m.owned[s] <= m.maxSponsorSize)
+//@   loop 1 invariant forall x string :: has(gmap("q", m.queue), x) == (has(gmap("items", m.eh), x) || (exists j int :: idx1 <= j && j < len(removedElems) && x == str(Item.GetID(removedElems[j]))))
+//@   loop 1 invariant forall j int :: 0 <= j && j < len(removedElems) ==> !has(gmap("items", m.eh), str(Item.GetID(removedElems[j])))
+//@   loop 1 invariant forall i int, j int :: 0 <= i && i < j && j < len(removedElems) ==> str(Item.GetID(removedElems[i])) != str(Item.GetID(removedElems[j]))
+//@   ensures RI(m) && SAME(m)
+//@   ensures gint("min", m.eh) == t
+
+// streamItems pops at most count items and marks every one of them as streamed
+//@ func (*Mempool).streamItems props C23
+//@   noframe
+//@   reveal RI SAME
+//@   requires RI(m) && SAME(m) && !isnil(m.streamedItems) && count >= 0
+//@   modifies gint("len", m.queue), gmap("items", m.eh)[], gint("n", m.eh), gmap("q", m.queue)[], m.owned[], m.pendingSize, m.streamedItems[]
+//@   loop 1 invariant RI(m) && SAME(m) && !isnil(m.streamedItems) && len(txs) <= count
+//@   loop 1 invariant forall j int :: 0 <= j && j < len(txs) ==> has(m.streamedItems, Item.GetID(txs[j]))
+//@   loop 1 invariant forall q ids.ID :: old(has(m.streamedItems, q)) ==> has(m.streamedItems, q)
+//@   ensures RI(m) && SAME(m) && len(result) <= count
+//@   ensures forall j int :: 0 <= j && j < len(result) ==> has(m.streamedItems, Item.GetID(result[j]))
+//@   ensures forall q ids.ID :: old(has(m.streamedItems, q)) ==> has(m.streamedItems, q)
+
+// everything prefetched for the stream has been marked as streamed
+//@ spec func STREAMED(m *Mempool) bool = m.nextStreamFetched ==> (!isnil(m.streamedItems) && (forall j int :: 0 <= j && j < len(m.nextStream) ==> has(m.streamedItems, Item.GetID(m.nextStream[j]))))
+
+//@ func (*Mempool).PrepareStream props C23
+//@   noframe
+//@   opt monitor m.mu
+//@   reveal RI SAME STREAMED
+//@   requires RI(m) && SAME(m) && !isnil(m.streamedItems) && count >= 0
+//@   modifies gint("len", m.queue), gmap("items", m.eh)[], gint("n", m.eh), gmap("q", m.queue)[], m.owned[], m.pendingSize, m.streamedItems[], m.nextStream, m.nextStreamFetched
+//@   ensures RI(m) && SAME(m) && STREAMED(m)
+
+// whatever Stream hands out (prefetched or popped now) is marked as streamed, so add refuses it
+// until FinishStreaming
+//@ func (*Mempool).Stream props C23
+//@   noframe
+//@   opt monitor m.mu
+//@   reveal RI SAME STREAMED
+//@   requires RI(m) && SAME(m) && STREAMED(m) && !isnil(m.streamedItems) && count >= 0
+//@   modifies gint("len", m.queue), gmap("items", m.eh)[], gint("n", m.eh), gmap("q", m.queue)[], m.owned[], m.pendingSize, m.streamedItems[], m.nextStream, m.nextStreamFetched
+//@   ensures RI(m) && SAME(m) && STREAMED(m)
+//@   ensures forall j int :: 0 <= j && j < len(result) ==> has(m.streamedItems, Item.GetID(result[j]))
+
+// FinishStreaming clears the streamed set and the prefetch before giving items back
+//@ func (*Mempool).FinishStreaming props C23
+//@   noframe
+//@   opt monitor m.mu
+//@   reveal RI SAME STREAMED
+//@   requires RI(m) && SAME(m) && m.maxSize >= 0 && m.maxSponsorSize >= 1
+//@   modifies gint("len", m.queue), gmap("items", m.eh)[], gint("n", m.eh), gmap("q", m.queue)[], m.owned[], m.pendingSize, m.streamedItems, m.nextStream, m.nextStreamFetched
+//@   ensures RI(m) && SAME(m) && STREAMED(m) && isnil(m.streamedItems) && !m.nextStreamFetched
